@@ -4,9 +4,12 @@ package main
 //
 // Reference (written down from the workflow syntax as the unchanged tree implements it):
 //   * in a job that calls a reusable workflow (`uses:`) the keys runs-on, environment, outputs, env, defaults,
-//     steps, timeout-minutes, continue-on-error and container are outside the set;
+//     steps, timeout-minutes, continue-on-error, container and services are outside the set (GitHub: only name,
+//     uses, with, secrets, needs, if, permissions, strategy and concurrency are supported there);
 //   * in an ordinary job (no `uses:`) the keys with and secrets are outside the set;
-//   * name, needs, if, permissions, strategy, concurrency (and, as implemented, services) are accepted in both.
+//   * name, needs, if, permissions, strategy, concurrency are accepted in both.
+// Every foreign key is written in every value form the parser reads for it (scalar / sequence / mapping /
+// expression / empty, `secrets: inherit`).
 // 1, 2 and 3 keys of the other kind are put into a call job / an ordinary job, in every order and before /
 // behind `uses:` resp. `steps:`. Every one of them has to be reported at its key, and every diagnostic of
 // the base workflow (the siblings carry known diagnostics in the dirty rendering) has to survive.
@@ -22,50 +25,77 @@ type c13JKEntry struct {
 	Key   string
 	Clean []string
 	Dirty []string // same number of lines; nil = no dirty spelling
+	// further value forms of a foreign key (Clean is form 0); every form is one the parser knows how to read
+	FormNames []string
+	Forms     [][]string
+}
+
+func (e *c13JKEntry) nForms() int { return 1 + len(e.Forms) }
+
+func (e *c13JKEntry) form(i int) (string, []string) {
+	if i == 0 || i > len(e.Forms) {
+		if len(e.FormNames) > 0 {
+			return e.FormNames[0], e.Clean
+		}
+		return "default", e.Clean
+	}
+	return e.FormNames[i], e.Forms[i-1]
 }
 
 const c13JKHeader = "on: push\njobs:\n  first:\n    runs-on: ubuntu-latest\n    steps:\n      - run: echo\n  target:\n"
 
 var c13JKCallBase = []c13JKEntry{
-	{"name", []string{"    name: Call"}, []string{"    name: ${{ foo }}"}},
-	{"needs", []string{"    needs: first"}, []string{"    needs: ''"}},
-	{"if", []string{"    if: success()"}, []string{"    if: foo"}},
-	{"uses", []string{"    uses: owner/repo/.github/workflows/w.yml@v1"}, []string{"    uses: owner/repo@v1"}},
-	{"with", []string{"    with:", "      x: a"}, []string{"    with:", "      x: ${{ foo }}"}},
-	{"secrets", []string{"    secrets:", "      s: b"}, []string{"    secrets:", "      s: ${{ foo }}"}},
-	{"strategy", []string{"    strategy:", "      fail-fast: true"}, []string{"    strategy:", "      fail-fast: maybe"}},
-	{"concurrency", []string{"    concurrency: grp"}, []string{"    concurrency: ${{ foo }}"}},
-	{"permissions", []string{"    permissions:", "      contents: read"}, []string{"    permissions:", "      contents: c13bogus"}},
+	{Key: "name", Clean: []string{"    name: Call"}, Dirty: []string{"    name: ${{ foo }}"}},
+	{Key: "needs", Clean: []string{"    needs: first"}, Dirty: []string{"    needs: ''"}},
+	{Key: "if", Clean: []string{"    if: success()"}, Dirty: []string{"    if: foo"}},
+	{Key: "uses", Clean: []string{"    uses: owner/repo/.github/workflows/w.yml@v1"}, Dirty: []string{"    uses: owner/repo@v1"}},
+	{Key: "with", Clean: []string{"    with:", "      x: a"}, Dirty: []string{"    with:", "      x: ${{ foo }}"}},
+	{Key: "secrets", Clean: []string{"    secrets:", "      s: b"}, Dirty: []string{"    secrets:", "      s: ${{ foo }}"}},
+	{Key: "strategy", Clean: []string{"    strategy:", "      fail-fast: true"}, Dirty: []string{"    strategy:", "      fail-fast: maybe"}},
+	{Key: "concurrency", Clean: []string{"    concurrency: grp"}, Dirty: []string{"    concurrency: ${{ foo }}"}},
+	{Key: "permissions", Clean: []string{"    permissions:", "      contents: read"}, Dirty: []string{"    permissions:", "      contents: c13bogus"}},
 }
 
 var c13JKOrdinaryBase = []c13JKEntry{
-	{"name", []string{"    name: Build"}, []string{"    name: ${{ foo }}"}},
-	{"needs", []string{"    needs: first"}, []string{"    needs: ''"}},
-	{"runs-on", []string{"    runs-on: ubuntu-latest"}, []string{"    runs-on: ${{ foo }}"}},
-	{"env", []string{"    env:", "      A_VAR: b"}, []string{"    env:", "      A_VAR: ${{ foo }}"}},
-	{"timeout-minutes", []string{"    timeout-minutes: 5"}, []string{"    timeout-minutes: 0"}},
-	{"steps", []string{"    steps:", "      - run: echo"}, []string{"    steps:", "      - run: echo ${{ foo }}"}},
-	{"strategy", []string{"    strategy:", "      fail-fast: true"}, []string{"    strategy:", "      fail-fast: maybe"}},
-	{"permissions", []string{"    permissions:", "      contents: read"}, []string{"    permissions:", "      contents: c13bogus"}},
+	{Key: "name", Clean: []string{"    name: Build"}, Dirty: []string{"    name: ${{ foo }}"}},
+	{Key: "needs", Clean: []string{"    needs: first"}, Dirty: []string{"    needs: ''"}},
+	{Key: "runs-on", Clean: []string{"    runs-on: ubuntu-latest"}, Dirty: []string{"    runs-on: ${{ foo }}"}},
+	{Key: "env", Clean: []string{"    env:", "      A_VAR: b"}, Dirty: []string{"    env:", "      A_VAR: ${{ foo }}"}},
+	{Key: "timeout-minutes", Clean: []string{"    timeout-minutes: 5"}, Dirty: []string{"    timeout-minutes: 0"}},
+	{Key: "steps", Clean: []string{"    steps:", "      - run: echo"}, Dirty: []string{"    steps:", "      - run: echo ${{ foo }}"}},
+	{Key: "strategy", Clean: []string{"    strategy:", "      fail-fast: true"}, Dirty: []string{"    strategy:", "      fail-fast: maybe"}},
+	{Key: "permissions", Clean: []string{"    permissions:", "      contents: read"}, Dirty: []string{"    permissions:", "      contents: c13bogus"}},
 }
 
 // keys of an ordinary job that are outside the key set of a call job
 var c13JKStepsOnly = []c13JKEntry{
-	{"runs-on", []string{"    runs-on: ubuntu-latest"}, nil},
-	{"environment", []string{"    environment: production"}, nil},
-	{"outputs", []string{"    outputs:", "      o: v"}, nil},
-	{"env", []string{"    env:", "      A_VAR: b"}, nil},
-	{"defaults", []string{"    defaults:", "      run:", "        shell: bash"}, nil},
-	{"steps", []string{"    steps:", "      - run: echo"}, nil},
-	{"timeout-minutes", []string{"    timeout-minutes: 5"}, nil},
-	{"continue-on-error", []string{"    continue-on-error: true"}, nil},
-	{"container", []string{"    container: alpine:3"}, nil},
+	{Key: "runs-on", Clean: []string{"    runs-on: ubuntu-latest"}, FormNames: []string{"scalar", "sequence", "mapping", "expression"},
+		Forms: [][]string{{"    runs-on:", "      - ubuntu-latest"}, {"    runs-on:", "      group: grp", "      labels: ubuntu-latest"}, {"    runs-on: ${{ github.actor }}"}}},
+	{Key: "environment", Clean: []string{"    environment: production"}, FormNames: []string{"scalar", "mapping"},
+		Forms: [][]string{{"    environment:", "      name: production", "      url: https://example.com"}}},
+	{Key: "outputs", Clean: []string{"    outputs:", "      o: v"}, FormNames: []string{"mapping", "expression-scalar"},
+		Forms: [][]string{{"    outputs: ${{ github.actor }}"}}},
+	{Key: "env", Clean: []string{"    env:", "      A_VAR: b"}, FormNames: []string{"mapping", "expression-scalar"},
+		Forms: [][]string{{"    env: ${{ github.actor }}"}}},
+	{Key: "defaults", Clean: []string{"    defaults:", "      run:", "        shell: bash"}, FormNames: []string{"mapping", "expression-scalar"},
+		Forms: [][]string{{"    defaults: ${{ github.actor }}"}}},
+	{Key: "steps", Clean: []string{"    steps:", "      - run: echo"}, FormNames: []string{"sequence", "empty", "empty-sequence"},
+		Forms: [][]string{{"    steps:"}, {"    steps: []"}}},
+	{Key: "timeout-minutes", Clean: []string{"    timeout-minutes: 5"}, FormNames: []string{"number", "expression"},
+		Forms: [][]string{{"    timeout-minutes: ${{ 5 }}"}}},
+	{Key: "continue-on-error", Clean: []string{"    continue-on-error: true"}, FormNames: []string{"boolean", "expression"},
+		Forms: [][]string{{"    continue-on-error: ${{ true }}"}}},
+	{Key: "container", Clean: []string{"    container: alpine:3"}, FormNames: []string{"scalar", "mapping"},
+		Forms: [][]string{{"    container:", "      image: alpine:3"}}},
+	{Key: "services", Clean: []string{"    services:", "      redis:", "        image: redis:7"}, FormNames: []string{"mapping", "scalar-service", "expression-scalar"},
+		Forms: [][]string{{"    services:", "      redis: redis:7"}, {"    services: ${{ github.actor }}"}}},
 }
 
 // keys of a call job that are outside the key set of an ordinary job
 var c13JKCallOnly = []c13JKEntry{
-	{"with", []string{"    with:", "      x: a"}, nil},
-	{"secrets", []string{"    secrets:", "      s: b"}, nil},
+	{Key: "with", Clean: []string{"    with:", "      x: a"}, FormNames: []string{"mapping", "empty"}, Forms: [][]string{{"    with:"}}},
+	{Key: "secrets", Clean: []string{"    secrets:", "      s: b"}, FormNames: []string{"mapping", "inherit", "other-scalar", "empty"},
+		Forms: [][]string{{"    secrets: inherit"}, {"    secrets: c13other"}, {"    secrets:"}}},
 }
 
 type c13JKKind struct {
@@ -130,7 +160,7 @@ type c13JKDoc struct {
 
 // c13JKBuild writes the workflow: base entries (dirty[i] selects the spelling) with the foreign entries put
 // into the given slots (slot s = in front of base entry s; len(base) = at the end).
-func c13JKBuild(k *c13JKKind, dirty []bool, tuple []int, slots []int) c13JKDoc {
+func c13JKBuild(k *c13JKKind, dirty []bool, tuple []int, slots []int, forms []int) c13JKDoc {
 	var d c13JKDoc
 	var out []string
 	hdr := strings.Split(strings.TrimSuffix(c13JKHeader, "\n"), "\n")
@@ -146,7 +176,8 @@ func c13JKBuild(k *c13JKKind, dirty []bool, tuple []int, slots []int) c13JKDoc {
 		for j, fi := range tuple {
 			if slots != nil && slots[j] == slot {
 				d.KeyLine[j] = len(out) + 1
-				out = append(out, k.Foreign[fi].Clean...)
+				_, lines := k.Foreign[fi].form(forms[j])
+				out = append(out, lines...)
 			}
 		}
 	}
@@ -245,7 +276,7 @@ func c13JobKindCase(c *Case, jc c13JKCase, level int) {
 				dirty[i] = c.R.Bool()
 			}
 		}
-		base := c13JKBuild(k, dirty, nil, nil)
+		base := c13JKBuild(k, dirty, nil, nil, nil)
 		baseDiags, err := lintSrc(base.Src)
 		c.Eval(1)
 		if err != nil {
@@ -256,7 +287,44 @@ func c13JobKindCase(c *Case, jc c13JKCase, level int) {
 			c.Run.Inconclusive(fmt.Sprintf("jobkind: the clean %s base is not clean: %s", k.Name, baseDiags[0].String()))
 			return
 		}
+		type variantOfForms struct {
+			pat   int
+			forms []int
+		}
+		var todo []variantOfForms
 		for _, pat := range patterns {
+			if nt == 1 {
+				// a single key: every value form the parser accepts for it
+				for f := 0; f < k.Foreign[jc.Tuple[0]].nForms(); f++ {
+					todo = append(todo, variantOfForms{pat, []int{f}})
+				}
+				continue
+			}
+			if len(k.Foreign) <= 3 {
+				// few foreign keys (ordinary job): every combination of value forms
+				total := 1
+				for _, fi := range jc.Tuple {
+					total *= k.Foreign[fi].nForms()
+				}
+				for x := 0; x < total; x++ {
+					fs := make([]int, nt)
+					y := x
+					for j, fi := range jc.Tuple {
+						fs[j] = y % k.Foreign[fi].nForms()
+						y /= k.Foreign[fi].nForms()
+					}
+					todo = append(todo, variantOfForms{pat, fs})
+				}
+				continue
+			}
+			fs := make([]int, nt)
+			for j := range fs {
+				fs[j] = c.R.Intn(k.Foreign[jc.Tuple[j]].nForms())
+			}
+			todo = append(todo, variantOfForms{pat, fs})
+		}
+		for _, td := range todo {
+			pat, forms := td.pat, td.forms
 			slots := make([]int, nt)
 			for j := range slots {
 				if pat&(1<<uint(j)) == 0 {
@@ -265,7 +333,7 @@ func c13JobKindCase(c *Case, jc c13JKCase, level int) {
 					slots[j] = pivot + 1 + c.R.Intn(nb-pivot)
 				}
 			}
-			d := c13JKBuild(k, dirty, jc.Tuple, slots)
+			d := c13JKBuild(k, dirty, jc.Tuple, slots, forms)
 			if prob := c13JKSelfCheck(k, &d, nt); prob != "" {
 				c.SetAdd("selfcheck_failures", fmt.Sprintf("jobkind %s %v %v: %s", k.Name, d.Keys, slots, prob))
 				continue
@@ -335,7 +403,7 @@ func c13JobKindCase(c *Case, jc c13JKCase, level int) {
 				disagree("C13:sibling-diagnostic-lost:job-kind-foreign-key:"+k.Name+":other-job",
 					fmt.Sprintf("keys %v of the other job kind in a %s: a diagnostic outside the job disappeared: %s", d.Keys, k.Name, l[0]), detail(map[string]interface{}{"lost": l}))
 			}
-			c.Nontrivial(fmt.Sprintf("jobkind|%s|%v|%v|%d", k.Name, d.Keys, slots, v))
+			c.Nontrivial(fmt.Sprintf("jobkind|%s|%v|%v|%v|%d", k.Name, d.Keys, slots, forms, v))
 			// every inserted key is reported at the key
 			for j, key := range d.Keys {
 				pos := "before-" + k.Pivot
@@ -343,6 +411,8 @@ func c13JobKindCase(c *Case, jc c13JKCase, level int) {
 					pos = "behind-" + k.Pivot
 				}
 				c.SetAdd("jobkind_covered", k.Name+":"+key+":"+pos+":"+multiplicity)
+				fname, _ := k.Foreign[jc.Tuple[j]].form(forms[j])
+				c.SetAdd("jobkind_forms_covered", k.Name+":"+key+":"+fname+":"+multiplicity)
 				ok := false
 				for _, g := range got {
 					if g.Line == d.KeyLine[j] && g.Col == 5 && strings.Contains(g.Msg, `"`+key+`"`) && avail[dk{g.Line, g.Col, g.Kind, c13NormMsg(g.Msg)}] > 0 {
@@ -350,12 +420,16 @@ func c13JobKindCase(c *Case, jc c13JKCase, level int) {
 					}
 				}
 				if !ok {
-					disagree("C13:job-kind-foreign-key-not-reported:"+k.Name+":"+key+":"+multiplicity,
-						fmt.Sprintf("%q is not a key of a %s but is not reported at %d:5 (inserted keys, in tuple order: %v at lines %v)", key, k.Name, d.KeyLine[j], d.Keys, d.KeyLine),
+					sig := "C13:job-kind-foreign-key-not-reported:" + k.Name + ":" + key + ":" + multiplicity
+					if forms[j] != 0 {
+						sig += ":value-form=" + fname
+					}
+					disagree(sig,
+						fmt.Sprintf("%q (value form %s) is not a key of a %s but is not reported at %d:5 (inserted keys, in tuple order: %v at lines %v)", key, fname, k.Name, d.KeyLine[j], d.Keys, d.KeyLine),
 						detail(map[string]interface{}{"unreported_key": key}))
 				}
 			}
-			if c.Idx == 12 && v == 1 && pat == patterns[0] {
+			if c.Idx == 12 && v == 1 && pat == patterns[0] && forms[0] == 0 {
 				c.Sample(map[string]interface{}{"kind": k.Name, "inserted_keys": d.Keys, "key_lines": d.KeyLine, "diags_at_keys": len(got) - len(baseDiags)})
 			}
 		}
@@ -365,6 +439,16 @@ func c13JobKindCase(c *Case, jc c13JKCase, level int) {
 func c13JobKindFloors(r *Run) {
 	for ki := range c13JKKinds {
 		k := &c13JKKinds[ki]
+		for fi := range k.Foreign {
+			for i := 0; i < k.Foreign[fi].nForms(); i++ {
+				fname, _ := k.Foreign[fi].form(i)
+				for _, m := range []string{"alone", "one-of-several"} {
+					if !r.SetHas("jobkind_forms_covered", k.Name+":"+k.Foreign[fi].Key+":"+fname+":"+m) {
+						r.Inconclusive(fmt.Sprintf("jobkind: key %q with value form %s was never put into a %s (%s)", k.Foreign[fi].Key, fname, k.Name, m))
+					}
+				}
+			}
+		}
 		for _, f := range k.Foreign {
 			for _, pos := range []string{"before-" + k.Pivot, "behind-" + k.Pivot} {
 				for _, m := range []string{"alone", "one-of-several"} {
